@@ -161,6 +161,38 @@ def main():
                 continue
             if not (isinstance(got, float) and math.isnan(got)):
                 fails.append({"clause": "division by zero yields NaN", "detail": f"`{t}` at {env} evaluated to {got!r}"})
+    # histories: the value of one evaluation must not depend on what was evaluated before in the same process
+    # (equal numbers of different type: 10 and 10.0 compare and hash equal - a cache keyed by value confuses them)
+    for a, b in [(10, 25), (3, 40), (7, 30), (2, 70), (12, 20), (-5, 27)]:
+        for first_float in (True, False):
+            cases += 2
+            order = [float(a), a] if first_float else [a, float(a)]
+            for base in order:
+                got = P(x, C(b)).evaluate({"x": base})
+                if isinstance(base, int):
+                    if not (isinstance(got, int) and not isinstance(got, bool) and got == a**b):
+                        fails.append({"clause": "exact integer power", "detail": f"x^{b} at x={a!r} evaluated to {got!r} ({type(got).__name__}) after x={order[0]!r} had been evaluated; exact value {a**b}"})
+                elif not isinstance(got, float):
+                    fails.append({"clause": "float operand gives a float", "detail": f"x^{b} at x={float(a)!r} evaluated to {got!r} ({type(got).__name__}) after x={order[0]!r} had been evaluated"})
+        for op_cls, f in ((E.AddExpression, lambda u, v: u + v), (E.MultiplyExpression, lambda u, v: u * v)):
+            cases += 2
+            g1 = op_cls(x, C(b)).evaluate({"x": float(a)})
+            g2 = op_cls(x, C(b)).evaluate({"x": a})
+            if not (isinstance(g2, int) and g2 == f(a, b)) or not isinstance(g1, float):
+                fails.append({"clause": "value does not depend on earlier evaluations", "detail": f"{op_cls.__name__}: {g1!r} then {g2!r} for x={float(a)!r} then x={a!r}"})
+    # exact integers far beyond the double range under the sign / absolute value / negation nodes
+    for big in (10**400, -(10**400), 2**1024, -(2**1024) - 1, math.factorial(200)):
+        for cls_, want in ((E.SgnExpression, (big > 0) - (big < 0)), (E.AbsExpression, abs(big)), (E.NegateExpression, -big)):
+            cases += 1
+            for tree, label in ((cls_(x), "x"), (cls_(S(x, C(1))), "x - 1")):
+                w = want if label == "x" else ((big - 1 > 0) - (big - 1 < 0) if cls_ is E.SgnExpression else abs(big - 1) if cls_ is E.AbsExpression else -(big - 1))
+                try:
+                    got = tree.evaluate({"x": big})
+                except Exception as e:  # noqa: BLE001
+                    fails.append({"clause": "huge exact integers", "detail": f"`{tree}` at x = {str(big)[:12]}... ({len(str(abs(big)))} digits) raised {type(e).__name__}"})
+                    continue
+                if not (isinstance(got, int) and got == w):
+                    fails.append({"clause": "huge exact integers", "detail": f"`{tree}` at x = {str(big)[:12]}... gave {str(got)[:30]} ({type(got).__name__})"})
     # small trees (two operators) over a small grid: exact integer arithmetic through nesting
     depth_vals = SMALL if tier == "quick" else SMALL + [2**63 - 1, -(2**63)]
     for a, b, c in itertools.product(depth_vals, repeat=3):
